@@ -123,7 +123,7 @@ func extractSkeleton(src, out string) error {
 	sb.WriteString("(* GENERATED on every run by `harness -skeleton` from " + src + " — do not edit. *)\n")
 	sb.WriteString("(* Structural facts of Vector.MulVec the goroutine-protocol model is parameterised by. *)\n")
 	fmt.Fprintf(&sb, "Definition skel_recognised : bool := %s.\n", cBool(unknown == ""))
-	fmt.Fprintf(&sb, "(* %s *)\n", strings.ReplaceAll(unknown, "*)", "* )"))
+	fmt.Fprintf(&sb, "(* %s *)\n", strings.ReplaceAll(strings.ReplaceAll(unknown, "*)", "* )"), "(*", "( *"))
 	fmt.Fprintf(&sb, "Definition skel_post_check : bool := %s.   (* ctx.Err() is re-checked after the collect loop, before the result is published *)\n", cBool(postCheck))
 	fmt.Fprintf(&sb, "Definition skel_final_sort : bool := %s.   (* sort.Sort(EntriesByIndex(...)) before publication *)\n", cBool(finalSort))
 	fmt.Fprintf(&sb, "Definition skel_workers : nat := %d.\n", workers)
